@@ -176,7 +176,64 @@ def _attr_of(path):
     return parts[-1] if parts else 'root'
 
 
-def judge_case(case, col):
+class OtherProcess:
+    """Other-process leg: some save points are kept on disk and read back by ONE fresh interpreter per shard whose
+    PYTHONHASHSEED differs from this process' (as `--replay` in a later session does); the four translations of the
+    loaded program must equal the texts of the live object at save time."""
+
+    def __init__(self, lang, limit):
+        self.lang, self.limit = lang, limit
+        self.dir = tempfile.mkdtemp(prefix='verif_c13x_')
+        self.entries = []
+
+    def want(self):
+        return len(self.entries) < self.limit
+
+    def add(self, stage, path, live_texts, key, size):
+        dst = os.path.join(self.dir, 'x%d_%s.bin' % (len(self.entries), stage))
+        shutil.copyfile(path, dst)
+        self.entries.append({'path': dst, 'stage': stage, 'texts': live_texts, 'key': key, 'size': size})
+
+    def run(self, col):
+        import json
+        import subprocess
+        import sys
+        try:
+            if not self.entries:
+                return
+            job = os.path.join(self.dir, 'job.json')
+            out = os.path.join(self.dir, 'out.json')
+            with open(job, 'w') as f:
+                json.dump({'lang': self.lang, 'entries': [{'path': e['path']} for e in self.entries], 'out': out}, f)
+            env = dict(os.environ, PYTHONHASHSEED=str(1000 + col.k))
+            r = subprocess.run([sys.executable, '-m', 'vlib.c13_loader', job], env=env, stdout=subprocess.PIPE,
+                               stderr=subprocess.STDOUT, text=True, timeout=3000,
+                               cwd=os.path.dirname(os.path.dirname(os.path.dirname(os.path.abspath(__file__)))))
+            if not os.path.exists(out):
+                raise RuntimeError('C13 loader process failed: ' + r.stdout[-800:])
+            with open(out) as f:
+                got = json.load(f)
+            for e, g in zip(self.entries, got):
+                col.case(key=hashlib.sha1((e['texts'].get(self.lang, '') + e['stage'] + 'x').encode()).hexdigest()[:16],
+                         nontrivial=e['stage'] != 'G',
+                         sample=lambda e=e: {'leg': 'other process', 'lang': self.lang, 'stage': e['stage'],
+                                             'loader_PYTHONHASHSEED': 1000 + col.k})
+                col.feature('savepoints_read_in_another_process')
+                if 'load' in g:
+                    col.violation('C13/load-raises-in-another-process/' + g['load'][4:], {'stage': e['stage']},
+                                  dict(e['key'], stage=e['stage'], other_process=True), size=e['size'])
+                    continue
+                for l in boot.LANGS:
+                    if e['texts'][l] != g.get(l):
+                        own = 'own-language' if l == self.lang else 'cross-language'
+                        col.violation('C13/text-differs-after-load/%s/%s/other-process' % (l, own),
+                                      {'stage': e['stage'], 'translator': l, 'diff': _first_diff(e['texts'][l], g.get(l) or '')},
+                                      dict(e['key'], stage=e['stage'], other_process=True), size=e['size'])
+        finally:
+            shutil.rmtree(self.dir, ignore_errors=True)
+
+
+def judge_case(case, col, xleg=None):
     if case.program is None:
         col.feature('discarded_error_or_oversize')
         return
@@ -212,6 +269,8 @@ def judge_case(case, col):
             save('O')
         # phase 2: load every dump and judge it against the program as it was at that save point
         for stage, path, twin, live_texts, live_ns in saves:
+            if xleg is not None and xleg.want():
+                xleg.add(stage, path, live_texts, case.key(), (len(case.tape) if case.tape else 100000 + len(textG)))
             viols = judge_savepoint(twin, lang, stage, case.key(), col, tmpdir, textG, path=path,
                                     live_texts=live_texts, live_ns=live_ns)
             k = hashlib.sha1((textG + stage).encode()).hexdigest()[:16]
@@ -237,19 +296,24 @@ def run_shard(spec, col):
     boot.init(lang)
     quick = col.tier == 'quick'
 
+    xleg = OtherProcess(lang, 8 if quick else 120)
+
     def seed_case(x):
         seed, (sw, limits) = x
-        judge_case(pg.gen_case(lang, 'seed', seed, sw, limits), col)
+        judge_case(pg.gen_case(lang, 'seed', seed, sw, limits), col, xleg)
     lim = pg.config_strategy()
     hyp.explore(st.tuples(st.integers(1, 2 ** 31 - 1), lim), seed_case, 6 if quick else 150, col.shard_seed('seed'))
 
     def tape_case(x):
         data, (sw, limits) = x
-        judge_case(pg.gen_case(lang, 'tape', 0, sw, limits, data=data, budget=4000), col)
+        judge_case(pg.gen_case(lang, 'tape', 0, sw, limits, data=data, budget=4000), col, xleg)
     hyp.explore(st.tuples(st.data(), pg.config_strategy(small=True)), tape_case, 16 if quick else 400,
                 col.shard_seed('tape'))
+    xleg.run(col)
 
 
 def replay(key, col):
     boot.init(key['lang'])
-    judge_case(pg.regen(key), col)
+    xleg = OtherProcess(key['lang'], 8)
+    judge_case(pg.regen({k: v for k, v in key.items() if k not in ('stage', 'other_process')}), col, xleg)
+    xleg.run(col)
